@@ -110,15 +110,15 @@ def r_accum(prog, tier):
                                         for (_, d_) in name_defs(f, v.id))
                             if reads:
                                 ok = None       # partly derived from the slot: idiom not recognised
-                    if not ok and f.fq in FRESH_KEY:
+                    if not ok and (f.fq in FRESH_KEY or (f.module.name == 'grammarinput' and _in_file_line_loop(cfg, n))):
                         ok = True
-                        why = 'FRESH-KEY table: ' + FRESH_KEY[f.fq]
+                        why = 'FRESH-KEY table: ' + FRESH_KEY['grammarinput.rcg']
                     if ok is False and isinstance(v, (ast.Name, ast.Call, ast.BinOp, ast.Subscript)):
                         # positive evidence that the slot may already hold a count: the same function creates entries of
                         # this table only when absent, or adds to it elsewhere
                         base_txt = unparse(base)
                         evidence = False
-                        for m_ in cfg.eval_nodes():
+                        for m_ in cfg.nodes:
                             if m_.kind == 'stmt' and m_.id != n.id:
                                 t_ = unparse(m_.ast)
                                 if isinstance(m_.ast, ast.AugAssign) and unparse(m_.ast.target).startswith(base_txt + '['):
@@ -270,6 +270,20 @@ def r_accum(prog, tier):
     # ---- analysis tasks
     obs.extend(_task_rules(prog))
     return obs, {'count_slot_stores': nslot, 'entry_creations': ninit}
+
+
+def _in_file_line_loop(cfg, n):
+    """Is the statement inside `for line in <f>` with <f> bound by an enclosing `with ... open(...) as <f>`?"""
+    for l in n.loops:
+        lp = cfg.nodes[l]
+        if lp.kind == 'iter' and isinstance(lp.ast.iter, ast.Name):
+            for w in cfg.nodes:
+                if w.kind == 'with':
+                    for it in w.ast.items:
+                        if it.optional_vars is not None and unparse(it.optional_vars) == lp.ast.iter.id \
+                                and 'open' in unparse(it.context_expr):
+                            return True
+    return False
 
 
 def _in_loop_after(cfg, dnode, use):
